@@ -234,7 +234,60 @@ def make_case(rng, double=False, nx=None, nt=None, span=None, n_baths=None, n_st
     c.sections, c.keys, c.tbath = sections, keys, tbath
     c.trans_att, c.matching, c.truth = trans, matching, truth
     c.var_args, c.var_mats, c.var_kind, c.noise = var_args, var_mats, var_kind, noise
+    c.var_callable = (float(slope), float(offset))
     c.span, c.irregular = span, irregular
+    return c
+
+
+def dump_case(c):
+    """everything needed to rebuild the case bit for bit (floats are written with repr precision by json)"""
+    names = ["st", "ast"] + (["rst", "rast"] if c.double else [])
+    truth = {k: (np.asarray(v).tolist() if not isinstance(v, list) else [np.asarray(t).tolist() for t in v]) for k, v in c.truth.items()}
+    return dict(double=bool(c.double), x=np.asarray(c.x).tolist(), nt=int(c.nt), data={n: c.ds[n].values.tolist() for n in names},
+                keys=list(c.keys), tbath={k: np.asarray(c.tbath[k]).tolist() for k in c.keys}, sections=[[k, [list(s) for s in v]] for k, v in c.sections],
+                trans_att=list(c.trans_att), matching=[[m[0].start, m[0].stop, m[1].start, m[1].stop, bool(m[2])] for m in c.matching],
+                var_kind=c.var_kind, var_mats={n: np.asarray(c.var_mats[n]).tolist() for n in names}, var_callable=list(c.var_callable),
+                noise=c.noise, span=c.span, irregular=bool(c.irregular), truth=truth)
+
+
+def load_case(d):
+    c = Case()
+    x = np.array(d["x"], dtype=float)
+    nt, nx, double = d["nt"], len(d["x"]), d["double"]
+    time = (np.arange(nt) * 30).astype("datetime64[s]")
+    dvars = {k: (("x", "time"), np.array(v, dtype=float)) for k, v in d["data"].items()}
+    for k in d["keys"]:
+        dvars[k] = (("time",), np.array(d["tbath"][k], dtype=float))
+    dvars["userAcquisitionTimeFW"] = (("time",), np.full(nt, 30.0))
+    if double:
+        dvars["userAcquisitionTimeBW"] = (("time",), np.full(nt, 30.0))
+    ds = xr.Dataset(dvars, coords={"x": x, "time": time}, attrs={"isDoubleEnded": "1" if double else "0"})
+    var_mats = {n: np.array(v, dtype=float) for n, v in d["var_mats"].items()}
+    var_args = {}
+    slope, offset = d["var_callable"]
+    for n in d["data"]:
+        if d["var_kind"] == "callable":
+            var_args[n + "_var"] = (lambda sl, of: (lambda s: sl * s + of))(slope, offset)
+        elif d["var_kind"] == "float":
+            var_args[n + "_var"] = float(var_mats[n].flat[0])
+        elif d["var_kind"] == "array":
+            var_args[n + "_var"] = var_mats[n]
+        else:
+            var_args[n + "_var"] = xr.DataArray(var_mats[n], dims=("x", "time"), coords={"x": x, "time": time})
+    c.ds, c.double, c.x, c.nt, c.nx = ds, double, x, nt, nx
+    c.sections = [(k, [tuple(s) for s in v]) for k, v in d["sections"]]
+    c.keys = list(d["keys"])
+    c.tbath = {k: np.array(v, dtype=float) for k, v in d["tbath"].items()}
+    c.trans_att = list(d["trans_att"])
+    c.matching = [(slice(m[0], m[1]), slice(m[2], m[3]), m[4]) for m in d["matching"]]
+    c.truth = {k: (np.array(v) if not (isinstance(v, list) and v and isinstance(v[0], list) and k in ("ta", "taf", "tab")) else [np.array(t) for t in v])
+               for k, v in d["truth"].items()}
+    for k in ("gamma", "dalpha"):
+        if k in c.truth:
+            c.truth[k] = float(c.truth[k])
+    c.var_args, c.var_mats, c.var_kind, c.noise = var_args, var_mats, d["var_kind"], d["noise"]
+    c.var_callable = (slope, offset)
+    c.span, c.irregular = d["span"], d["irregular"]
     return c
 
 
